@@ -75,8 +75,8 @@ def gen_seq(rng):
     return seq, collapsed
 
 
-def mk_tree(rng, plain=False, paired=False):
-    cfg = treegen.Cfg(n_max=10, p_punct=0.3, p_unary=0.2, labels=treegen.PLAIN_LABELS if plain or rng.random() < 0.7 else treegen.LABELS)
+def mk_tree(rng, plain=False, paired=False, n_min=1):
+    cfg = treegen.Cfg(n_min=n_min, n_max=10, p_punct=0.3, p_unary=0.2, labels=treegen.PLAIN_LABELS if plain or rng.random() < 0.7 else treegen.LABELS)
     if rng.random() < 0.1:
         cfg.p_punct = 0.9
     if paired:
@@ -145,7 +145,8 @@ def sequence(rng):
 def cli_sequence(rng):
     """the same sequences through `treetools transform --trans ...` (order as given, repeats allowed)"""
     import cliseq
-    ts = [mk_tree(rng, plain=True) for _ in range(rng.randint(1, 3))]
+    # at least two tokens: a one-token sentence collapses into a bare token, which is no tree any further step is defined on
+    ts = [mk_tree(rng, plain=True, n_min=2) for _ in range(rng.randint(1, 3))]
     seq, _ = gen_seq(rng)
     seq = cliseq.perturb(rng, seq or [("root_attach", {})])
     return cliseq.seq_case(rng, ts, seq, "cli-sequence")[0]
